@@ -137,6 +137,9 @@ type replayFile struct {
 	Case      json.RawMessage `json:"case"`
 	Violation *Violation      `json:"violation,omitempty"`
 	Note      string          `json:"note,omitempty"`
+	// Repeat > 1: the failure depends on the goroutine schedule; the replay runs
+	// the case that many times and reports the first run that violates.
+	Repeat int `json:"repeat,omitempty"`
 }
 
 type shard struct {
@@ -312,15 +315,19 @@ func Check[C any](t *testing.T, p Prop[C]) {
 			if err := json.Unmarshal(rf.Case, &c); err != nil {
 				t.Fatalf("replay %s: case does not decode: %v", path, err)
 			}
-			res := runCase(t, &p, c)
 			n := 0
-			for _, v := range res.Violations {
-				if IsKnown(p.ID, v.Kind) {
-					fmt.Printf("REPLAY-KNOWN property=%s kind=%s %s\n", p.ID, v.Kind, v.Detail)
-					continue
+			for run := 0; run < max(1, rf.Repeat) && n == 0; run++ {
+				res := runCase(t, &p, c)
+				for _, v := range res.Violations {
+					if IsKnown(p.ID, v.Kind) {
+						if run == 0 {
+							fmt.Printf("REPLAY-KNOWN property=%s kind=%s %s\n", p.ID, v.Kind, v.Detail)
+						}
+						continue
+					}
+					n++
+					fmt.Printf("REPLAY-VIOLATION property=%s file=%s run=%d kind=%s %s\n", p.ID, path, run+1, v.Kind, v.Detail)
 				}
-				n++
-				fmt.Printf("REPLAY-VIOLATION property=%s file=%s kind=%s %s\n", p.ID, path, v.Kind, v.Detail)
 			}
 			if n > 0 {
 				t.Errorf("replay %s: %d violation(s)", path, n)
